@@ -107,6 +107,13 @@ NESTED_ITEMS = [
      'struct K { #[partial_eq(ignore)] a: [u8; { struct I { #[partial_eq(ignore)] #[hash(ignore)] x: u8 } 2 }], #[hash(ignore)] b: u8 }',
      'struct K { a: [u8; { struct I { #[partial_eq(ignore)] #[hash(ignore)] x: u8 } 2 }], b: u8 }'),
     ('', 'struct X<T> { #[derive_ex(Clone(bound(T)))] a: T, b: u8 }', 'struct X<T> { a: T, b: u8 }'),
+    # the name of a trait INSIDE the arguments of a list (a bound) derives nothing: the helper-named attributes of that
+    # trait are foreign (here: the standard derive's `#[default]` marker, a `#[debug]` / `#[hash]` of another macro)
+    ('Clone(bound(T: Clone + Default))', '#[derive(Default)] enum E<T> { #[default] A, B(T) }', '#[derive(Default)] enum E<T> { #[default] A, B(T) }'),
+    ('Clone, bound(T: Default, ..)', '#[derive(Default)] enum E<T> { #[default] A, #[debug(skip)] B(#[hash(x)] T) }',
+     '#[derive(Default)] enum E<T> { #[default] A, #[debug(skip)] B(#[hash(x)] T) }'),
+    ('PartialEq', '#[derive_ex(Clone, bound(Wrap<T>: Hash + Debug + Default))] struct X<T> { #[hash(skip)] #[debug(with = "f")] #[default] a: Wrap<T>, #[partial_eq(ignore)] b: u8 }',
+     'struct X<T> { #[hash(skip)] #[debug(with = "f")] #[default] a: Wrap<T>, b: u8 }'),
     # lists spelled with the crate name in front are lists of the request: read and removed; other paths are foreign
     ('Clone', '#[::derive_ex::derive_ex(Debug)] #[foo::derive_ex(Hash)] struct X(#[derive_ex::derive_ex(Clone)] u8, #[debug(ignore)] u8);',
      '#[foo::derive_ex(Hash)] struct X(u8, u8);'),
